@@ -572,6 +572,9 @@ def run(cx, rep):
                "%s is violated (%s): the assert/unreachable sites the census classifies under it become reachable: %s" % (inv, rid, "; ".join(v["msg"][:200] for v in bad[:2])),
                bad[0]["loc"] if bad else None, sample={"invariant": inv, "rule": rid, "obligations": r["obligations"], "discharged": r["discharged"]})
 
+    # INV-ANYOF-NONEMPTY (census entry `panic|empty anyOf is not allowed`): AnyOf(empty set) is never constructed
+    anyof_nonempty(cx, rep, F)
+
     # ---------------------------------------------------------------- C04.2
     rep.rule("C04.2", "no match arm over an input-shaped enum (swc AST / binding tables) is a panic")
     arms_tab = {(e["adt"], e["variant"]): e for e in cx.table("c04_grammar_excluded_arms.json")["arms"]}
@@ -621,6 +624,10 @@ def run(cx, rep):
         key = "%s#%d" % (pair, ordinal[pair])
         ordinal[pair] += 1
         bad, mark = uncut(F, scc_of, marked, f, c, tgts)
+        if bad and value_guarded_builtin(F, f, c):
+            rep.ob("C04.3a", key, True, sample={"edge": key, "lookup": looked[1],
+                                               "accepted_because": "the call is taken only under `<looked-up name>.is_builtin()`: builtin names carry no user definition, the callee dispatches on the builtin and the type arguments were lowered from sub-syntax before the call"})
+            continue
         if bad and key in accepted_edges:
             rep.ob("C04.3a", key, True, sample={"edge": key, "lookup": looked[1], "accepted_because": accepted_edges[key]["reason"]})
             continue
@@ -704,6 +711,88 @@ def run(cx, rep):
     rep.ob("C04.ctl", "uncut-recursion", len(unc) >= 1, "canary: expected chase() flagged as un-cut RESOLVE recursion", sample={"canary_uncut": len(unc)})
     nsites = len(list(diverging_sites(C, creach)))
     rep.ob("C04.ctl", "diverging-sites", nsites >= 5, "canary: expected >= 5 diverging sites, got %d" % nsites, sample={"canary_diverging_sites": nsites})
+
+
+def anyof_nonempty(cx, rep, F):
+    """every construction of RuntypeKind::AnyOf receives a set that cannot be empty: either a local set with a
+    literal insert before, or the accumulator of a merger whose consume() inserts or recurses for EVERY element and
+    which is only invoked for vectors of length >= 2"""
+    RK_ANYOF = "ast::runtype::RuntypeKind::AnyOf"
+    sites = []
+    for g, t in F.hir.items():
+        f = F.fns.get(g)
+        if f is None or f.macros or f.crate == WASM:
+            continue
+        for n in walk(t["body"]):
+            if n["k"] == "Call" and (n.get("callee") or "") == RK_ANYOF:
+                sites.append((f, t, n))
+    rep.ob("C04.inv", "INV-ANYOF-NONEMPTY/sites", 1 <= len(sites) <= 4, "unexpected number of RuntypeKind::AnyOf construction sites: %d" % len(sites), None,
+           sample={"anyof_construction_sites": ["%s:%s" % (f.file, n["line"]) for f, t, n in sites]})
+    for f, t, n in sites:
+        a = n["args"][0]
+        locs = [x["name"] for x in walk(a) if x["k"] == "Path" and x.get("res") == "local"]
+        ok = False
+        why = "argument is neither a literal set with an insert nor a merger accumulator"
+        if a["k"] == "Path" and locs:
+            ins = [x for x in walk(t["body"]) if x["k"] == "MethodCall" and x["method"] == "insert" and [y["name"] for y in walk(x["recv"]) if y["k"] == "Path" and y.get("res") == "local"] == locs and x["line"] < n["line"]]
+            ok = len(ins) >= 1
+            why = "the set is built with %d unconditional insert(s) before the construction" % len(ins)
+        elif a["k"] == "Field" and locs:
+            # accumulator of a merger: find its type's consume-like method called here
+            calls = [x for x in walk(t["body"]) if x["k"] == "MethodCall" and [y["name"] for y in walk(x["recv"]) if y["k"] == "Path" and y.get("res") == "local"] == locs and x["line"] < n["line"]]
+            ok = False
+            for c in calls:
+                cg = c.get("callee")
+                ct = F.hir.get(cg)
+                if ct is None:
+                    continue
+                ms = [m for m in walk(ct["body"]) if m["k"] == "Match" and m.get("src") == "Normal"]
+                if len(ms) != 1:
+                    why = "merger %s has no single dispatch over its elements" % cg
+                    continue
+                bad = []
+                for arm in ms[0]["arms"]:
+                    inserts = any(x["k"] == "MethodCall" and x["method"] == "insert" for x in walk(arm["body"]))
+                    recurses = any(x["k"] == "MethodCall" and x.get("callee") == cg for x in walk(arm["body"])) or any(x["k"] == "Call" and x.get("callee") == cg for x in walk(arm["body"]))
+                    if not inserts and not recurses:
+                        bad.append(arm["line"])
+                ok = not bad
+                why = "every arm of %s inserts or recurses" % cg.rsplit("::", 1)[-1] if ok else "an arm of %s (line %s) drops its element: a union whose members are all dropped becomes AnyOf(empty), which print_runtype answers with panic!(\"empty anyOf is not allowed\")" % (cg, bad)
+            # callers hand over at least two members
+            callers = [(g2, x) for g2, t2 in F.hir.items() for x in walk(t2["body"]) if x["k"] == "Call" and x.get("callee") == f.id]
+            for g2, x in callers:
+                guarded = False
+                for m in walk(F.hir[g2]["body"]):
+                    if m["k"] == "Match" and m["scrut"]["k"] == "MethodCall" and m["scrut"]["method"] == "len":
+                        lits = {a2["pat"].get("lit") for a2 in m["arms"]}
+                        wild = [a2 for a2 in m["arms"] if a2["pat"]["k"] == "P.Wild"]
+                        if {"0", "1"} <= lits and wild and any(y is x for y in walk(wild[0]["body"])):
+                            guarded = True
+                if not guarded:
+                    ok = False
+                    why = "%s calls the merger without first handling the 0- and 1-member cases" % g2
+        rep.ob("C04.inv", "INV-ANYOF-NONEMPTY/%s" % f.id.rsplit("::", 1)[-1], ok,
+               "RuntypeKind::AnyOf may be constructed from an empty set in %s: %s" % (f.id, why), "%s:%s" % (f.file, n["line"]), sample={"site": f.id.rsplit("::", 1)[-1], "argument": why})
+
+
+def value_guarded_builtin(F, f, c):
+    """structural form of the one accepted RESOLVE edge: the call sits in the then-branch of `if X.is_builtin()`
+    and passes that same X (found in the typed HIR by the call's line, so it survives renames)"""
+    tree = F.hir.get(f.root or f.id)
+    if tree is None:
+        return False
+    for n in walk(tree["body"]):
+        if n["k"] != "If":
+            continue
+        cond = n["cond"]
+        if cond["k"] == "MethodCall" and cond["method"] == "is_builtin":
+            guard_locals = [x["name"] for x in walk(cond["recv"]) if x["k"] == "Path" and x.get("res") == "local"]
+            for call in walk(n["then"]):
+                if call["k"] in ("Call", "MethodCall") and call.get("line") == c.line:
+                    arg_locals = [x["name"] for a in call.get("args", []) for x in walk(a) if x["k"] == "Path" and x.get("res") == "local"]
+                    if guard_locals and guard_locals[0] in arg_locals:
+                        return True
+    return False
 
 
 def strip_generics(s):
